@@ -1774,8 +1774,11 @@ class Interp:
         """cut-point rule: establish the invariant, then either (a) an arbitrary iteration preserves
         it (path is cut there) or (b) leave the loop from an arbitrary state satisfying inv and not cond"""
         tag = "L%d" % s.lineno
+        # obligations are named by the ordinal of the loop in its function (stable under edits elsewhere in the file)
+        whiles = sorted((n for n in ast.walk(fr.func.node) if isinstance(n, ast.While)), key=lambda n: (n.lineno, n.col_offset))
+        loopname = "loop#%d" % (whiles.index(s) + 1 if s in whiles else 0)
         for cname, goal in lc.invariant(self, fr):
-            self.assert_ob("loop@%d:inv-init:%s" % (s.lineno, cname), goal, lc.props)
+            self.assert_ob("%s:inv-init:%s" % (loopname, cname), goal, lc.props)
         self.havoc_loop_state(s, fr, tag)
         for cname, goal in lc.invariant(self, fr):
             self.assume(goal if goal is not True else True)
@@ -1793,10 +1796,10 @@ class Interp:
                 for h in lc.hints(self, fr):
                     self.assume(h)
             for cname, goal in lc.invariant(self, fr):
-                self.assert_ob("loop@%d:inv-preserved:%s" % (s.lineno, cname), goal, lc.props)
+                self.assert_ob("%s:inv-preserved:%s" % (loopname, cname), goal, lc.props)
             if v0 is not None:
                 v1 = lc.variant(self, fr)
-                self.assert_ob("loop@%d:variant-decreases" % s.lineno, z3.And(v0 >= 0, v1 < v0), lc.props)
+                self.assert_ob("%s:variant-decreases" % loopname, z3.And(v0 >= 0, v1 < v0), lc.props)
             self.cut = True
             raise Abort()
         if s.orelse:
